@@ -512,6 +512,40 @@ carquet_status_t carquet_offset_index_serialize(
  * @param might_match Output: true if page might contain matching values
  * @return Status code
  */
+/* Order of two plain-encoded values of the column's physical type:
+ * numerics by value (they are little-endian, memcmp does not order them),
+ * everything else lexicographically. Unordered floats compare as equal. */
+static int page_value_compare(carquet_physical_type_t type,
+                              const void* a, int32_t a_len,
+                              const void* b, int32_t b_len) {
+    if (a_len == b_len) {
+        if (type == CARQUET_PHYSICAL_INT32 && a_len == 4) {
+            int32_t va, vb;
+            memcpy(&va, a, 4); memcpy(&vb, b, 4);
+            return (va > vb) - (va < vb);
+        }
+        if (type == CARQUET_PHYSICAL_INT64 && a_len == 8) {
+            int64_t va, vb;
+            memcpy(&va, a, 8); memcpy(&vb, b, 8);
+            return (va > vb) - (va < vb);
+        }
+        if (type == CARQUET_PHYSICAL_FLOAT && a_len == 4) {
+            float va, vb;
+            memcpy(&va, a, 4); memcpy(&vb, b, 4);
+            return (va > vb) - (va < vb);
+        }
+        if (type == CARQUET_PHYSICAL_DOUBLE && a_len == 8) {
+            double va, vb;
+            memcpy(&va, a, 8); memcpy(&vb, b, 8);
+            return (va > vb) - (va < vb);
+        }
+    }
+    int32_t n = a_len < b_len ? a_len : b_len;
+    int cmp = n > 0 ? memcmp(a, b, (size_t)n) : 0;
+    if (cmp != 0) return cmp;
+    return (a_len > b_len) - (a_len < b_len);
+}
+
 carquet_status_t carquet_column_index_page_might_match(
     const carquet_column_index_builder_t* builder,
     int32_t page_idx,
@@ -534,10 +568,10 @@ carquet_status_t carquet_column_index_page_might_match(
 
     /* If query max < page min, no match */
     if (max_value && builder->min_values[page_idx]) {
-        int cmp = memcmp(max_value, builder->min_values[page_idx],
-                         value_len < builder->min_value_lens[page_idx] ?
-                         value_len : builder->min_value_lens[page_idx]);
-        if (cmp < 0 || (cmp == 0 && value_len < builder->min_value_lens[page_idx])) {
+        int cmp = page_value_compare(builder->type, max_value, value_len,
+                                     builder->min_values[page_idx],
+                                     builder->min_value_lens[page_idx]);
+        if (cmp < 0) {
             *might_match = false;
             return CARQUET_OK;
         }
@@ -545,10 +579,10 @@ carquet_status_t carquet_column_index_page_might_match(
 
     /* If query min > page max, no match */
     if (min_value && builder->max_values[page_idx]) {
-        int cmp = memcmp(min_value, builder->max_values[page_idx],
-                         value_len < builder->max_value_lens[page_idx] ?
-                         value_len : builder->max_value_lens[page_idx]);
-        if (cmp > 0 || (cmp == 0 && value_len > builder->max_value_lens[page_idx])) {
+        int cmp = page_value_compare(builder->type, min_value, value_len,
+                                     builder->max_values[page_idx],
+                                     builder->max_value_lens[page_idx]);
+        if (cmp > 0) {
             *might_match = false;
             return CARQUET_OK;
         }
